@@ -128,7 +128,19 @@ func dialH1(r *run, addr string) (xconn, error) {
 }
 
 func (x *h1conn) reusable() bool { return !x.noReuse }
-func (x *h1conn) close()         { _ = x.c.Close() }
+func (x *h1conn) close()         { rstClose(x.c) }
+
+// rstClose closes with SO_LINGER 0: no TIME_WAIT on the client side. A case opens thousands of short-lived
+// connections; left in TIME_WAIT they would exhaust the ephemeral ports of the (shared) machine.
+func rstClose(c net.Conn) {
+	if s, ok := c.(*spyConn); ok {
+		c = s.Conn
+	}
+	if tc, ok := c.(*net.TCPConn); ok {
+		_ = tc.SetLinger(0)
+	}
+	_ = c.Close()
+}
 
 func (x *h1conn) send(b []byte) error {
 	_ = x.c.SetWriteDeadline(time.Now().Add(10 * time.Second))
@@ -237,7 +249,12 @@ func dialBolt(r *run, addr string) (xconn, error) {
 }
 
 func (x *bconn) reusable() bool { return !x.noReuse }
-func (x *bconn) close()         { x.c.Close() }
+func (x *bconn) close() {
+	if tc, ok := x.c.C.(*net.TCPConn); ok {
+		_ = tc.SetLinger(0)
+	}
+	x.c.Close()
+}
 
 func (x *bconn) do(p *plan, h *hooks, res *result) {
 	res.NewConn, res.ConnAfterSig = !x.used, x.afterSig
@@ -505,12 +522,12 @@ func dialH2(r *run, addr string) (xconn, error) {
 
 func (x *h2conn) reusable() bool { return !x.noReuse }
 func (x *h2conn) close() {
-	x.tr.CloseIdleConnections()
 	x.mu.Lock()
 	for _, c := range x.conns {
-		_ = c.Close()
+		rstClose(c)
 	}
 	x.mu.Unlock()
+	x.tr.CloseIdleConnections()
 }
 
 type h2out struct {
